@@ -5,6 +5,7 @@ import (
 	"go/ast"
 	"go/types"
 	"os"
+	"regexp"
 	"sort"
 	"strconv"
 	"strings"
@@ -13,6 +14,8 @@ import (
 
 	"golang.org/x/tools/go/ssa"
 )
+
+var reExternFunc = regexp.MustCompile(`^[a-z][a-z0-9]*\.[A-Z]\w*$`)
 
 type FuncResult struct {
 	Func       string
@@ -421,6 +424,12 @@ func (v *Verifier) VerifyFunc(pkg *ssa.Package, c *Contract, pool *Pool) (res *F
 		return
 	}
 	fn := v.findFunc(pkg, c.Func)
+	if fn == nil && c.Assumed != "" && reExternFunc.MatchString(c.Func) {
+		// "func <pkg name>.<Func>": an assumed contract of a function of another module (standard library)
+		res.Status = "assumed"
+		res.Reason = "function of another module: " + c.Assumed
+		return
+	}
 	if fn == nil {
 		res.Status = "missing"
 		res.Reason = "function not found in package under tags '" + v.tags + "'"
@@ -472,6 +481,7 @@ func (v *Verifier) VerifyFunc(pkg *ssa.Package, c *Contract, pool *Pool) (res *F
 		}
 		parts = all
 	}
+	v.cutFired = map[int]bool{}
 	for _, p := range parts {
 		res.Partitions = append(res.Partitions, p.label)
 		func() {
@@ -497,6 +507,19 @@ func (v *Verifier) VerifyFunc(pkg *ssa.Package, c *Contract, pool *Pool) (res *F
 		}()
 		if res.Status == "outside-subset" {
 			return
+		}
+	}
+	// vacuity guard: a cut whose anchor is never reached on any path of any partition asserts nothing; unless the
+	// contract marks it "+ optional" (an anchor that exists only in some variants of a generated function), that is
+	// reported as a failed obligation, not as success
+	for ci, ct := range c.Cuts {
+		if !v.cutFired[ci] && !ct.Optional {
+			o := &Obligation{Name: res.Func + fmt.Sprintf("#cut%d:reached", ci+1), Kind: "cut", Func: res.Func,
+				Spec: "the anchor of 'cut " + ct.Anchor + "' is reached on some path (otherwise its assertions are vacuous)"}
+			script := "; obligation " + o.Name + "\n(assert (not false))\n(check-sat)\n"
+			o.Bytes = len(script)
+			res.Obls = append(res.Obls, o)
+			pool.Submit(o, script)
 		}
 	}
 	res.Status = "pending"
